@@ -21,6 +21,9 @@ COMPILERS = {"rel": "g++", "asan": "clang++", "tsan": "clang++"}
 # property table. engine "rc": a rapidcheck executable built in the `rel` flavour.
 # quick/thorough: (multiplier on each sub-check's base case count, number of parallel seeds)
 PROPS = {
+    "C11": dict(engine="rc", exe="c11", quick=(1, 6), thorough=(20, 16),
+                assumptions=["the depth used by a feature is observed by bisection on the membership indicator (resolves to 1e-10 m, compared with 1 mm tolerance)",
+                             "every corner gets the bare '[value]' entry as documented default"]),
     "C10": dict(engine="rc", exe="c10", quick=(1, 6), thorough=(20, 16),
                 assumptions=["trenches bend by at most 25 degrees and probe points sit 2..30 km beside the trench, so the foot of a point generated beside trench segment k lies on segment k-1, k or k+1",
                              "models are uniform (values recognisable exactly)"]),
